@@ -600,6 +600,9 @@ pub struct ValveServer {
     /// the next answer loses everything after its first datagram
     pub partial_next: bool,
     pub fixed_challenges: Vec<[u8; 4]>,
+    /// a wrong echo is answered with the challenge that is still awaited (one challenge per client address for a
+    /// while, as real servers keep it) instead of a fresh one
+    pub stable_challenge: bool,
     /// pre-computed reply datagrams per kind (used instead of encoding at answer time)
     pub fixed_frags: [Option<Vec<Vec<u8>>>; 4],
     /// compressed form of the reply of a kind (used when its transport is SourceCompressed)
@@ -627,6 +630,7 @@ impl ValveServer {
             unknown_requests: 0,
             partial_next: false,
             fixed_challenges: Vec::new(),
+            stable_challenge: false,
             fixed_frags: [None, None, None, None],
             compressed: [None, None, None, None],
             current_kind: 0,
@@ -952,8 +956,9 @@ impl Server for ValveServer {
                     Some((exp, left, false)) => {
                         if exp != c {
                             self.echoed_wrong += 1;
-                            // a wrong echo gets a fresh challenge, as real servers do
-                            let nc = self.next_challenge(cx);
+                            // a wrong echo gets a fresh challenge, as real servers do (or, in the stable mode,
+                            // the one that is still awaited)
+                            let nc = if self.stable_challenge { <[u8; 4]>::try_from(exp.as_slice()).unwrap_or([0; 4]) } else { self.next_challenge(cx) };
                             self.issued.push((kind, nc));
                             self.pending[k] = Some((nc.to_vec(), left, false));
                             let mut d = vec![0xff, 0xff, 0xff, 0xff, 0x41];
